@@ -520,8 +520,15 @@ def adds_every(facts, body, it, dst, src_param, src_path):
         return ok, site
     from .common import emptiness_atom
     specs = {'src_empty': (src_param, tuple(src_path)), 'dst_empty': (1, tuple(dst))}
-    atom = emptiness_atom(specs)
-    ev = Evaluator(facts, bool_atom=atom, assumption={'src_empty': False, 'dst_empty': False})
+    empt = emptiness_atom(specs)
+
+    def atom(t):
+        # a set: inserting a member it already holds changes nothing (`if !self.value.contains(&m) { insert }`) - the insert is
+        # asked for where the member is not there yet
+        if is_call(t, 'contains') and len(t[2]) == 2 and param_path(versionless(t[2][0])) == (1, tuple(dst)):
+            return 'has'
+        return empt(t)
+    ev = Evaluator(facts, bool_atom=atom, assumption={'src_empty': False, 'dst_empty': False, 'has': False})
     ok, site = _adds_every(facts, body, it, dst, src_param, src_path, Reach(facts, body, ev))
     if not ok or not ev.hits:
         return False, None
@@ -533,7 +540,7 @@ def adds_every(facts, body, it, dst, src_param, src_path):
         if bb in skipping and tgt is not None and tgt[0] == 1 and any(body.blocks[b]['term']['k'] == 'return' for b in rcs._reach(bb, {site})):
             return False, None
     # destination empty (source not): every path adds every element, or takes the whole source over
-    rcd = Reach(facts, body, Evaluator(facts, bool_atom=atom, assumption={'src_empty': False, 'dst_empty': True}))
+    rcd = Reach(facts, body, Evaluator(facts, bool_atom=atom, assumption={'src_empty': False, 'dst_empty': True, 'has': False}))
     takes = [w.bb for w in it.writes.values() if loc_target(it, w.loc) and loc_target(it, w.loc)[:3] == (1, tuple(dst), 'w')
              and param_path(versionless(w.val)) == (src_param, tuple(src_path))]
     if not rcd.must_pass([site] + takes):
